@@ -343,7 +343,7 @@ def r7_metadata(ctx):
         on_ds = [e for e in stores if canon(e.data[0]) == canon(("attr", ds, "attrs"))]
         on_var = [e for e in stores if e.data[0][0] == "attr" and e.data[0][2] == "attrs" and e.data[0][1][0] == "sub" and canon(e.data[0][1][1]) == canon(ds)
                   and e.data[0][1][2][0] == "elem" and canon(e.data[0][1][2][1]) == canon(ds)]
-        tag = ",".join("%s" % v for _c, v in p.conds[2:])
+        tag = Q.tags(p.conds[2:])
         for nm, hit in (("dataset", on_ds), ("variables", on_var)):
             if hit:
                 val = hit[0].data[2]
